@@ -56,6 +56,18 @@ def step (line : String) : String :=
         let mga := if fixesAll σ a.vars then none else margin τ false (a.peval σ) pts ρ
         s!"{showOB (sliceContains τ πτ a b σ pts ρ)} {showOB (contains τ (.prod a b) pts (ρ ++ σ))} {showM (margin τ false (.prod a b) pts (ρ ++ σ))} {fvs} {showM mga}"
       return if out.isEmpty then "-" else ";".intercalate out
+    | "rebind" => do
+      -- the later row binds a fixed variable again: only the as-coded evaluation `pevalC` is meaningful
+      let atol ← rat; let rtol ← rat; let batol ← rat
+      let d ← parseDom rat
+      let σ ← parseEnv rat
+      let rows ← many (do let pts ← parseEnv rat; let ρ ← parseEnv rat; pure (pts, ρ))
+      let τ : Tol Rat := ⟨atol, rtol, batol⟩
+      let dc := d.pevalC σ
+      let dσ := d.peval σ
+      let out := rows.map fun (pts, ρ) =>
+        s!"{showOB (contains τ dc pts ρ)} {showM (margin τ false dc pts ρ)} {showOB (contains τ dσ pts ρ)} {showM (margin τ false dσ pts ρ)}"
+      return if out.isEmpty then "-" else ";".intercalate out
     | "peval2" => do
       -- repeated evaluation: D(**σ1)(**σ2) at (pts, ρ)  vs  D at (pts, ρ ∪ σ2 ∪ σ1)
       let atol ← rat; let rtol ← rat; let batol ← rat
